@@ -140,9 +140,13 @@ class BloomSuite(Suite):
             elif k < 0.95:
                 seq.append(("hashes", h, key, rng.randint(1, 9)))
             elif k < 0.97:
-                seq.append(("addalt", h, [rng.randrange(2**64) for _ in range(rng.choice([0, 1, 2, 30]))], 1))
+                seq.append(("addalt", h, [rng.randrange(2**64) for _ in range(30)], 1))
             else:
                 seq.append(("obs", h))
+        if rng.random() < 0.5:
+            # malformed stream: a hash list shorter than number_hashes. Only the error kind is compared, and it
+            # is the last operation of the sequence: what a rejected call leaves behind is outside every property
+            seq.append(("addalt-short", rng.choice(sorted(have)), [rng.randrange(2**64) for _ in range(rng.choice([0, 1]))], 1))
         return seq
 
     def gen_add(self, rng, h, key, kind):
@@ -274,6 +278,15 @@ class BloomSuite(Suite):
                     out.append((f"cb.add {h} {t} n={n if n is not None else 1}", self.obs(kind, obj, ret_str(res))))
                 if res[0] == "err":
                     D["err:" + res[1]] += 1
+            elif kind_op == "addalt-short":
+                hs, n = op[2], op[3]
+                if len(hs) >= obj.number_hashes:
+                    continue
+                res = call(obj.add_alt, hs) if kind == "bf" else call(obj.add_alt, hs, n)
+                D["err:" + ret_str(res)] += 1
+                line = f"bf.add {h} hs={nats(hs) or '-'}" if kind == "bf" else f"cb.add {h} hs={nats(hs) or '-'} n={n}"
+                out.append((line, {"ret": ret_str(res)}))
+                break
             elif kind_op == "addalt":
                 hs, n = op[2], op[3]
                 if kind == "bf":
